@@ -24,7 +24,8 @@ class AV:
     __slots__ = ('k', 'c', 'p', 'dims', 'dt', 'items', 'elem', 'org', 'oid',
                  'label', 'pv', 'orth', 'lg', 'deg', 'unit', 'taint', 'lay',
                  'fn', 'env', 'self_', 'attrs', 'ext', 'keys', 'cls', 'src',
-                 'note', 'uninit', 'maybe_none', 'nonneg', 'normed', 'idx', 'lo', 'nonlin')
+                 'note', 'uninit', 'maybe_none', 'nonneg', 'normed', 'idx', 'lo', 'nonlin',
+                 'delta')
 
     def __init__(self, k, **kw):
         self.k = k
@@ -60,6 +61,10 @@ class AV:
         self.idx = None
         self.lo = None
         self.nonlin = False
+        # identity pattern: (i, j) = the array is 1 where index_i == index_j,
+        # 0 elsewhere and constant along every other axis; 'broken' = an
+        # identity whose paired axes were scrambled by a reshape
+        self.delta = None
         for a, v in kw.items():
             setattr(self, a, v)
         if k in ('list', 'dict', 'obj') and self.oid is None:
